@@ -181,6 +181,7 @@ fn big_term_case(_t: Tier) -> impl Strategy<Value = BigTermCase> {
         1 => (0u64..2000).prop_map(|d| 15_250_284_452_471 - 1000 + d),    // weeks near it
         1 => any::<u64>(),
         1 => 0u64..1000,
+        1 => prop_oneof![Just(1u64 << 63), Just((1u64 << 63) - 1), Just((1u64 << 63) + 1), Just(u64::MAX)], // i64 limits as text
     ];
     proptest::collection::vec((any::<bool>(), mag, 0usize..10), 1..=3).prop_map(|terms| BigTermCase { terms })
 }
@@ -223,6 +224,11 @@ fn check_big_terms(c: &BigTermCase, obs: &mut Obs) -> CheckResult {
             obs.class("rejected");
             if representable && c.terms.iter().all(|t| t.1 < 1_000_000) {
                 return fail("bigterms:rejected-small", format!("{:?} rejected although every term is small", s));
+            }
+            // a single month-free term whose value in nanoseconds fits an i64 (the parser's own
+            // accumulator for the sub-second units) has no intermediate that could overflow
+            if representable && c.terms.len() == 1 && months == 0 && ns >= i64::MIN as i128 && ns <= i64::MAX as i128 {
+                return fail("bigterms:rejected-single-term", format!("{:?} rejected although it is one term with a representable value (months {}, {} ns)", s, months, ns));
             }
         },
         Ok(td) => {
